@@ -182,8 +182,8 @@ Notation cstate := (@cstate A).
 
 (** a decoded page holds as many packed values as its levels announce *)
 Definition page_ok (p : page) : Prop := length (pg_vals p) = count (dec_levels max_def p).
-(** a valid chunk: consistent pages, none of them empty *)
-Definition chunk_ok (pages : list page) : Prop := Forall (fun p : page => page_ok p /\ pg_levels p <> []) pages.
+(** a valid chunk: consistent pages (a page may be empty) *)
+Definition chunk_ok (pages : list page) : Prop := Forall page_ok pages.
 
 Definition flatL (ps : list page) : list N := flat_map (dec_levels max_def) ps.
 Definition flatV (ps : list page) : list A := flat_map (@pg_vals A) ps.
@@ -209,7 +209,7 @@ Lemma flatV_app ps qs : flatV (ps ++ qs) = flatV ps ++ flatV qs.
 Proof. apply flat_map_app. Qed.
 
 Lemma pages_ok_weaken ps : chunk_ok ps -> Forall page_ok ps.
-Proof. intro H. eapply Forall_impl; [|exact H]. intros p [Hp _]. exact Hp. Qed.
+Proof. intro H. exact H. Qed.
 
 Lemma count_flat ps : Forall page_ok ps -> count (flatL ps) = length (flatV ps).
 Proof.
@@ -266,11 +266,11 @@ Proof.
 Qed.
 
 Lemma chunk_split_ok before p after :
-  pages = before ++ p :: after -> Forall page_ok before /\ page_ok p /\ pg_levels p <> [] /\ chunk_ok after.
+  pages = before ++ p :: after -> Forall page_ok before /\ page_ok p /\ chunk_ok after.
 Proof.
   intro E. pose proof Hchunk as H. rewrite E in H. unfold chunk_ok in H.
-  apply Forall_app in H. destruct H as [Hb Ha]. inversion Ha as [|? ? [Hp Hne] Haf]; subst.
-  repeat split; try assumption. eapply Forall_impl; [|exact Hb]. intros q [Hq _]. exact Hq.
+  apply Forall_app in H. destruct H as [Hb Ha]. inversion Ha as [|? ? Hp Haf]; subst.
+  repeat split; assumption.
 Qed.
 
 (** flat windows seen from inside the current page *)
@@ -288,7 +288,7 @@ Lemma count_before before p after r :
   pages = before ++ p :: after -> (r <= length (pg_levels p))%nat ->
   count (firstn (total_rows before + r) L) = (length (flatV before) + count (firstn r (dec_levels max_def p)))%nat.
 Proof.
-  intros E Hr. destruct (chunk_split_ok _ _ _ E) as (Hb & _ & _ & _).
+  intros E Hr. destruct (chunk_split_ok _ _ _ E) as (Hb & _ & _).
   rewrite E, flatL_app. cbn [flatL flat_map]. fold (flatL after).
   rewrite <- flatL_length. rewrite firstn_app. rewrite firstn_all2 by lia.
   replace (length (flatL before) + r - length (flatL before))%nat with r by lia.
@@ -319,10 +319,11 @@ Definition loaded_state (st : cstate) (p : page) : cstate :=
      cs_dvals := dec_vals garbage p; cs_dlevels := dec_levels (cs_max_def st) p;
      cs_view := cs_zc st && N.eqb (cs_max_def st) 0 |}.
 
-Lemma load_then_reset st p :
+Lemma load_ok st p :
   nth_error (cs_pages st) (cs_cur st) = Some p ->
-  (let '(st', ok) := load_next_page garbage st in (if ok then set_pdense st' O else st', ok)) = (loaded_state st p, true).
-Proof. intro H. unfold load_next_page. rewrite H. reflexivity. Qed.
+  load_next_page garbage st = (set_pdense (loaded_state st p) (cs_pdense st), true) /\
+  set_pdense (set_pdense (loaded_state st p) (cs_pdense st)) O = loaded_state st p.
+Proof. intro H. unfold load_next_page. rewrite H. split; reflexivity. Qed.
 
 Lemma Inv_loaded_state st0 before p after pos :
   cs_pages st0 = pages -> cs_max_def st0 = max_def -> cs_zc st0 = zc ->
@@ -336,48 +337,63 @@ Proof.
   exists before, p, after. rewrite Hmd. repeat split; try assumption; try lia.
 Qed.
 
-(** "Load a new page if needed": afterwards a page with unread rows is loaded, the position is the same *)
-Lemma ensure_page_spec st pos :
-  Inv st pos -> (pos < total)%nat ->
-  exists st1, ensure_page garbage st = (st1, true) /\ Inv st1 pos /\ cs_loaded st1 = true /\ (cs_pread st1 < cs_pnum st1)%nat.
+(** pages still ahead of the reader *)
+Definition ahead (st : cstate) : nat :=
+  if cs_loaded st then (length (cs_pages st) - S (cs_cur st))%nat else length (cs_pages st).
+
+(** "Load a new page if needed" (a loop that passes over empty pages): afterwards a page with unread rows is
+    loaded, the position is the same *)
+Lemma ensure_page_loop_spec fuel : forall st pos,
+  Inv st pos -> (pos < total)%nat -> (ahead st < fuel)%nat ->
+  exists st1, ensure_page_loop garbage fuel st = (st1, LOk) /\ Inv st1 pos /\ cs_loaded st1 = true /\
+              (cs_pread st1 < cs_pnum st1)%nat.
 Proof.
-  intros (Hpg & Hmd & Hzc & Hle & Hrem & Hld) Hlt. unfold ensure_page.
+  induction fuel as [|fuel IH]; intros st pos HI Hlt Hfuel; [lia|].
+  pose proof HI as (Hpg & Hmd & Hzc & Hle & Hrem & Hld).
+  cbn [ensure_page_loop].
   destruct (cs_loaded st) eqn:El.
   - destruct Hld as (before & p & after & E & Hcur & Hpn & Hpr & Hpos & Hdl & Hdv & Hpd).
     cbn [negb orb].
     destruct (cs_pnum st <=? cs_pread st)%nat eqn:Ex.
-    + (* page exhausted: advance to the next page, which exists because rows are left *)
+    + (* page exhausted (or empty): advance to the next page, which exists because rows are left *)
       assert (Hr : cs_pread st = length (pg_levels p)) by lia.
       destruct after as [|p' after'].
       { exfalso. rewrite E, total_rows_app, total_rows_cons in Hlt. cbn [total_rows fold_right] in Hlt. lia. }
       assert (E' : pages = (before ++ [p]) ++ p' :: after') by (rewrite <- app_assoc; exact E).
-      destruct (chunk_split_ok _ _ _ E') as (_ & Hp' & Hne' & _).
       assert (Hn : nth_error (cs_pages (set_after_advance st)) (cs_cur (set_after_advance st)) = Some p').
       { cbn [set_after_advance cs_pages cs_cur]. rewrite Hpg, Hcur, E'.
         replace (S (length before)) with (length (before ++ [p])) by (rewrite app_length; cbn [length]; lia).
         apply nth_error_middle. }
-      rewrite (load_then_reset _ _ Hn).
-      eexists. split; [reflexivity|]. split; [|split].
+      destruct (load_ok _ _ Hn) as (Hload & Hreset). rewrite Hload, Hreset.
+      apply IH; [|exact Hlt|].
       * apply (Inv_loaded_state _ (before ++ [p]) p' after'); cbn [set_after_advance cs_pages cs_max_def cs_zc cs_remaining cs_cur]; try assumption.
         -- rewrite Hcur, app_length. cbn [length]. lia.
         -- rewrite total_rows_app, total_rows_cons. cbn [total_rows fold_right]. lia.
-      * reflexivity.
-      * cbn [loaded_state cs_pread cs_pnum]. destruct (pg_levels p') as [|x xs] eqn:Ep'; [congruence|]. cbn [length]. lia.
+      * unfold ahead in *. rewrite El in Hfuel.
+        cbn [loaded_state set_after_advance cs_loaded cs_pages cs_cur]. rewrite Hpg in *. rewrite Hcur in *.
+        rewrite E in *. rewrite app_length in *. cbn [length] in *. lia.
     + exists st. repeat split; try assumption; try lia.
-      * rewrite El. exists before, p, after. repeat split; assumption.
+      rewrite El. exists before, p, after. repeat split; assumption.
   - destruct Hld as (Hpos0 & Hcur0). cbn [negb orb].
     destruct pages as [|p after] eqn:Epages.
     { cbn [total_rows fold_right] in Hlt. lia. }
     rewrite <- Epages in *.
     assert (E' : pages = [] ++ p :: after) by (rewrite Epages; reflexivity).
-    destruct (chunk_split_ok _ _ _ E') as (_ & Hp' & Hne' & _).
     assert (Hn : nth_error (cs_pages st) (cs_cur st) = Some p).
     { rewrite Hpg, Hcur0, Epages. reflexivity. }
-    rewrite (load_then_reset _ _ Hn).
-    eexists. split; [reflexivity|]. split; [|split].
+    destruct (load_ok _ _ Hn) as (Hload & Hreset). rewrite Hload, Hreset.
+    apply IH; [|exact Hlt|].
     + apply (Inv_loaded_state _ [] p after); try assumption.
-    + reflexivity.
-    + cbn [loaded_state cs_pread cs_pnum]. destruct (pg_levels p) as [|x xs] eqn:Ep'; [congruence|]. cbn [length]. lia.
+    + unfold ahead in *. rewrite El in Hfuel. cbn [loaded_state cs_loaded cs_pages cs_cur].
+      rewrite Hpg in *. rewrite Hcur0. rewrite Epages in *. cbn [length] in *. lia.
+Qed.
+
+Lemma ensure_page_spec st pos :
+  Inv st pos -> (pos < total)%nat ->
+  exists st1, ensure_page garbage st = (st1, LOk) /\ Inv st1 pos /\ cs_loaded st1 = true /\ (cs_pread st1 < cs_pnum st1)%nat.
+Proof.
+  intros HI Hlt. unfold ensure_page. apply ensure_page_loop_spec; [exact HI|exact Hlt|].
+  unfold ahead. destruct (cs_loaded st); lia.
 Qed.
 
 Lemma i32_small z : -2^31 <= z < 2^31 -> i32 z = z.
@@ -412,7 +428,7 @@ Lemma copy_from_page_spec st1 pos mx :
 Proof.
   intros (Hpg & Hmd & Hzc & Hle & Hrem & Hld) El Hlt Hmx t lv. rewrite El in Hld.
   destruct Hld as (before & p & after & E & Hcur & Hpn & Hpr & Hpos & Hdl & Hdv & Hpd).
-  destruct (chunk_split_ok _ _ _ E) as (Hb & Hp & Hne & _).
+  destruct (chunk_split_ok _ _ _ E) as (Hb & Hp & _).
   assert (Htot : total = (total_rows before + length (pg_levels p) + total_rows after)%nat).
   { rewrite E at 1. rewrite total_rows_app, total_rows_cons. lia. }
   assert (Ht : (cs_pread st1 + t <= length (pg_levels p))%nat) by (subst t; lia).
@@ -473,7 +489,7 @@ Proof.
   destruct (ensure_page_spec st pos HI Hlt) as (st1 & Ee & HI1 & El1 & Hr1).
   destruct (copy_from_page_spec st1 pos mx HI1 El1 Hr1 Hmx) as (st' & Ec & HI' & El' & Hle').
   exists st', (Nat.min (Z.to_nat mx) (cs_pnum st1 - cs_pread st1)).
-  cbn zeta. unfold read_next_page. rewrite Ee. cbn [negb]. cbn zeta in Ec. rewrite Ec.
+  cbn zeta. unfold read_next_page. rewrite Ee. cbn zeta in Ec. rewrite Ec.
   split; [reflexivity|]. split; [exact HI'|]. split; [exact El'|]. split; [exact Hle'|]. split; [lia|].
   intro Hpos. lia.
 Qed.
@@ -839,12 +855,13 @@ End Theorems.
 
 (* ------------------------------------------------------------------ examples and the pinned tree *)
 
-(** an OPTIONAL chunk [1, NULL, 3, 4 | NULL, 6] in two pages *)
+(** an OPTIONAL chunk [1, NULL, 3, 4 | (empty page) | NULL, 6] in three pages, one of them without values *)
 Definition ex_pages : list (@page N) :=
-  [ {| pg_levels := [1;0;1;1]%N; pg_vals := [1;3;4]%N |}; {| pg_levels := [0;1]%N; pg_vals := [6]%N |} ].
+  [ {| pg_levels := [1;0;1;1]%N; pg_vals := [1;3;4]%N |}; {| pg_levels := []; pg_vals := [] |};
+    {| pg_levels := [0;1]%N; pg_vals := [6]%N |} ].
 
 Example ex_chunk_ok : chunk_ok 1%N ex_pages.
-Proof. repeat constructor; discriminate. Qed.
+Proof. repeat constructor. Qed.
 
 Example ex_ops_ok : Forall op_ok [Read 2; Remaining; Skip 1; HasNext; ReadNoDef 2; Reopen; Read 9].
 Proof. repeat constructor; cbn; lia. Qed.
@@ -863,6 +880,6 @@ Theorem cursor_refines_pinned_refuted_proved :
     run 3200171710%N false ops (open 1%N false pages) <> Ok (spec_outputs ops (rows_of 3200171710%N 1%N pages)).
 Proof.
   exists [ {| pg_levels := [1;0;1;1]%N; pg_vals := [1;3;4]%N |} ], [Read 2; Read 2].
-  split; [repeat constructor; discriminate|]. split; [repeat constructor; cbn; lia|].
+  split; [repeat constructor|]. split; [repeat constructor; cbn; lia|].
   vm_compute. discriminate.
 Qed.
